@@ -181,6 +181,7 @@ def _alphabet_a(seed):
         ("M2(a,c)", cirq.MatrixGate(U2)(a, c), None),
         ("ZZ(a,b)^g", cirq.ZZ(a, b) ** g, None),
         ("CCZ", cirq.CCZ(a, b, c), None),
+        ("CCZ^g(c,a,b)", cirq.CCZ(c, a, b) ** g, None),
         ("CSWAP", cirq.CSWAP(a, b, c), None),
         ("M3", cirq.MatrixGate(U3)(a, b, c), None),
         ("nc:ISWAP(a,b)^g", (cirq.ISWAP(a, b) ** g).with_tags(NOCOMPILE), None),
@@ -194,7 +195,7 @@ def _alphabet_a(seed):
 
 
 _SUB_NAMES = ("SUB[H,CNOT,T]", "SUB[ISWAP^g,X]x2")
-_HEAVY_NAMES = ("CCZ", "CSWAP", "M3")
+_HEAVY_NAMES = ("CCZ", "CCZ^g(c,a,b)", "CSWAP", "M3")
 # letters of the length-3 core (old-vs-new two-qubit count choice, partial CZ, ignored tag, measurement)
 _CORE3_NAMES = ("H(b)", "CNOT(a,b)", "CZ(a,b)", "CZ(b,c)^g", "nc:ISWAP(a,b)^g", "meas(a,b;m)")
 _CORE3_MORE = ("X(a)", "Y(c)^.5", "M1xM1(a,b)", "CNOT(b,a)", "ISWAP(a,b)", "SWAP(b,c)", "SQRT_ISWAP(b,c)", "FSim(a,c)", "ZZ(a,b)^g",
